@@ -100,6 +100,10 @@ type Interp struct {
 	// pathFail and pathOK count the path-mode attempts per function in this
 	// query; a function that never got through is not tried again and again.
 	pathFail, pathOK map[*ssa.Function]int
+	// pendingFree hands the captured values of a closure to its activation;
+	// curFree holds them while that activation's frames are created.
+	pendingFree []Val
+	curFree     []Val
 	// Marks is free for a rule's observers to record what they saw.
 	Marks map[string]bool
 	// NoPath disables path mode (diagnosis only).
@@ -353,6 +357,7 @@ type frame struct {
 	in     *Interp
 	fn     *ssa.Function
 	args   []Val
+	free   []Val // values of the captured variables (closures)
 	start  *ssa.BasicBlock
 	ctx    string // call string of this activation (names its allocations)
 	blocks map[*ssa.BasicBlock]bool
@@ -435,7 +440,7 @@ func (in *Interp) RunOuter(fn *ssa.Function, args []Val, start *ssa.BasicBlock, 
 }
 
 func (in *Interp) newFrame(fn *ssa.Function, args []Val, start *ssa.BasicBlock, outer map[ssa.Value]Val, entry Store, ctx string) *frame {
-	return &frame{in: in, fn: fn, args: args, start: start, outer: outer, ctx: ctx, entry: entry,
+	return &frame{in: in, fn: fn, args: args, free: in.curFree, start: start, outer: outer, ctx: ctx, entry: entry,
 		blocks: map[*ssa.BasicBlock]bool{start: true}, edges: map[edge]bool{},
 		vals: map[ssa.Value]Val{}, memo: map[ssa.Value]Val{}, must: map[ssa.Instruction]bool{},
 		inS: map[*ssa.BasicBlock]Store{}, outS: map[*ssa.BasicBlock]Store{},
@@ -500,6 +505,8 @@ func (in *Interp) run(fn *ssa.Function, args []Val, start *ssa.BasicBlock, outer
 	saveFr := in.curFr
 	defer func() { in.depth--; in.stack = in.stack[:len(in.stack)-1]; in.curFr = saveFr }()
 
+	free := in.pendingFree
+	in.pendingFree = nil
 	region := start != nil && start != fn.Blocks[0]
 	if start == nil {
 		start = fn.Blocks[0]
@@ -515,6 +522,7 @@ func (in *Interp) run(fn *ssa.Function, args []Val, start *ssa.BasicBlock, outer
 	var fr *frame
 	done := false
 	if !region && !in.NoPath && hasLoop(fn) && !(in.pathFail[fn] >= 2 && in.pathOK[fn] == 0) {
+		in.curFree = free
 		fr = in.newFrame(fn, args, start, outer, entry, ctx)
 		if !fr.execPath() {
 			in.pathFail[fn]++
@@ -522,6 +530,7 @@ func (in *Interp) run(fn *ssa.Function, args []Val, start *ssa.BasicBlock, outer
 			in.pathOK[fn]++
 			done = true
 			if observing {
+				in.curFree = free
 				fr = in.newFrame(fn, args, start, outer, entry, ctx)
 				in.collect = true
 				if !fr.execPath() {
@@ -531,6 +540,7 @@ func (in *Interp) run(fn *ssa.Function, args []Val, start *ssa.BasicBlock, outer
 		}
 	}
 	if !done {
+		in.curFree = free
 		fr = in.newFrame(fn, args, start, outer, entry, ctx)
 		fr.fixpoint(observing)
 	}
